@@ -584,6 +584,21 @@ func (w *c04rsWorld) detect() VerifDetect {
 				down = append(down, int64(ts))
 			}
 		}
+		// a host that has not heartbeaten to this incarnation is only expected (durable known-tractserver set,
+		// seeded into the monitor for the detect round as updateTsmonLoop does): down
+		for _, h := range hs {
+			if !w.cur.KnowsTS(core.TractserverID(h)) {
+				dup := false
+				for _, x := range down {
+					if x == int64(h) {
+						dup = true
+					}
+				}
+				if !dup {
+					down = append(down, int64(h))
+				}
+			}
+		}
 		sort.Slice(down, func(i, j int) bool { return down[i] < down[j] })
 		op = append(op, int64(len(down)))
 		op = append(op, down...)
